@@ -2,7 +2,7 @@
    (T12c NaN beat lengths, T12d defaults of omitted fields) and the value
    invariants of the resulting control points (T12b). *)
 From RM Require Import Model.TimingPoints Proofs.BSearch Proofs.ControlPointsFacts
-  Proofs.TPFloatFacts Proofs.TimingPointsFacts.
+  Proofs.TPFloatFacts Proofs.TPKeyOrder Proofs.TimingPointsFacts.
 From RM Require Import Gen.Generated.
 From Coq Require Import Sorting.Sorted.
 Require Import ZifyBool.
@@ -65,12 +65,24 @@ Proof.
   destruct fs as [|a [|b [|c [|d [|e [|f [|h [|i rest]]]]]]]]; reflexivity.
 Qed.
 
+Lemma pn_f64_finite s t : pn_f64 s = Some t -> is_finite t = true.
+Proof.
+  unfold pn_f64, pn_f64_lim. destruct (parse_f64_raw (trim s)) as [n|]; [|discriminate].
+  destruct (D.lt n _) eqn:E1; [discriminate|]. destruct (D.gt n _) eqn:E2; [discriminate|].
+  destruct (D.is_nan n) eqn:E3; [discriminate|]. intros H; inversion H; subst t.
+  destruct n as [s0|[|]| |s0 m e Hb]; try reflexivity; exfalso.
+  - revert E1. vm_compute. discriminate.
+  - revert E2. vm_compute. discriminate.
+  - discriminate E3.
+Qed.
+
 (* facts about every accepted line *)
 Definition line_ok (r : tp_line) : Prop :=
   (l_tc r = true -> D.is_nan (l_beat r) = false) /\
   l_speed r = speed_multiplier (l_beat r) /\
   l_bank r <> bank_none /\
-  0 < l_sig r.
+  0 < l_sig r /\
+  is_finite (l_time r) = true.
 
 Lemma f_sig_pos o n : f_sig o = Some n -> 0 < n.
 Proof.
@@ -97,6 +109,7 @@ Proof.
   - intros Htc. rewrite Htc in E. exact E.
   - destruct (z0 =? bank_none) eqn:Eb; [discriminate | lia].
   - eapply f_sig_pos; eassumption.
+  - eapply pn_f64_finite; eassumption.
 Qed.
 
 Lemma parse_tp_line_ok g line r : parse_tp_line g line = Some r -> line_ok r.
@@ -137,12 +150,15 @@ Qed.
 
 (* ---------- the value predicates of T12b ---------- *)
 
-Definition good_tp (p : TimingPoint) : Prop := in_range bl_lo bl_hi (tp_beat_len p) /\ 0 < tp_sig p.
-Definition good_dp (p : DifficultyPoint) : Prop := in_range sv_lo sv_hi (dp_sv p).
+Definition good_tp (p : TimingPoint) : Prop :=
+  in_range bl_lo bl_hi (tp_beat_len p) /\ 0 < tp_sig p /\ is_finite (tp_time p) = true.
+Definition good_dp (p : DifficultyPoint) : Prop :=
+  in_range sv_lo sv_hi (dp_sv p) /\ is_finite (dp_time p) = true.
 Definition good_ep (mode : Z) (p : EffectPoint) : Prop :=
-  in_range sc_lo sc_hi (ep_scroll p) /\ (scroll_mode mode = false -> ep_scroll p = D.one).
+  in_range sc_lo sc_hi (ep_scroll p) /\ (scroll_mode mode = false -> ep_scroll p = D.one) /\
+  is_finite (ep_time p) = true.
 Definition good_sp (p : SamplePoint) : Prop :=
-  vol_lo <= sp_vol p <= vol_hi /\ sp_bank p <> bank_none.
+  vol_lo <= sp_vol p <= vol_hi /\ sp_bank p <> bank_none /\ is_finite (sp_time p) = true.
 
 Definition cp_good (mode : Z) (c : ControlPoints) : Prop :=
   Forall good_tp (cp_timing c) /\ Forall good_dp (cp_difficulty c) /\
@@ -156,26 +172,28 @@ Definition op_good (mode : Z) (o : cp_op) : Prop :=
 
 Lemma good_line_tp r : line_ok r -> l_tc r = true -> good_tp (line_tp r).
 Proof.
-  intros (Hn & _ & _ & Hs) Htc. split; [|exact Hs].
+  intros (Hn & _ & _ & Hs & Hf) Htc. split; [|exact (conj Hs Hf)].
   apply clamp_in_range; [exact bl_bounds | exact (Hn Htc)].
 Qed.
 
 Lemma good_line_dp r : line_ok r -> good_dp (line_dp r).
 Proof.
-  intros (_ & Hsp & _). apply clamp_in_range; [exact sv_bounds|].
+  intros (_ & Hsp & _ & _ & Hf). split; [|exact Hf]. apply clamp_in_range; [exact sv_bounds|].
   rewrite Hsp. apply speed_not_nan.
 Qed.
 
 Lemma good_line_ep mode r : line_ok r -> good_ep mode (line_ep mode r).
 Proof.
-  intros (_ & Hsp & _). unfold good_ep, line_ep. destruct (scroll_mode mode); cbn [ep_scroll ep_new].
-  - split; [|discriminate]. apply clamp_in_range; [exact sc_bounds|]. rewrite Hsp. apply speed_not_nan.
-  - split; [exact one_in_sc | reflexivity].
+  intros (_ & Hsp & _ & _ & Hf). unfold good_ep, line_ep.
+  destruct (scroll_mode mode); cbn [ep_scroll ep_time ep_new].
+  - split; [|split; [discriminate|exact Hf]].
+    apply clamp_in_range; [exact sc_bounds|]. rewrite Hsp. apply speed_not_nan.
+  - split; [exact one_in_sc | split; [reflexivity|exact Hf]].
 Qed.
 
 Lemma good_line_sp r : line_ok r -> good_sp (line_sp r).
 Proof.
-  intros (_ & _ & Hb & _). split; [apply zclamp_range; exact vol_bounds | exact Hb].
+  intros (_ & _ & Hb & _ & Hf). split; [apply zclamp_range; exact vol_bounds | exact (conj Hb Hf)].
 Qed.
 
 (* ---------- adds keep the value predicates ---------- *)
@@ -276,7 +294,7 @@ Proof.
   destruct Hr as [->|[]]. eapply parse_tp_line_ok; eassumption.
 Qed.
 
-Lemma spec_ops_good g lines : Forall (op_good (g_mode g)) (spec_ops g lines).
+Lemma spec_ops_good g lines : Forall (op_good (tpg_mode g)) (spec_ops g lines).
 Proof.
   unfold spec_ops. apply Forall_forall. intros o Hin. apply in_flat_map in Hin.
   destruct Hin as (run & Hrun & Ho).
@@ -284,7 +302,7 @@ Proof.
   { apply Forall_forall. intros r Hr.
     pose proof (accepted_ok g lines) as Hacc. rewrite Forall_forall in Hacc. apply Hacc.
     rewrite <- (concat_runs (accepted g lines)). apply in_concat. exists run. auto. }
-  pose proof (run_ops_good (g_mode g) run Hok) as H. rewrite Forall_forall in H. apply H. exact Ho.
+  pose proof (run_ops_good (tpg_mode g) run Hok) as H. rewrite Forall_forall in H. apply H. exact Ho.
 Qed.
 
 (* T12b (with T12a): the decoder never panics; its result is that of the
@@ -292,25 +310,14 @@ Qed.
 Lemma tp_decode_good g lines :
   exists c, tp_decode g lines = Done (c, spec_results g lines) /\
             legacy_spec g lines = Done c /\
-            cp_sorted c /\ cp_good (g_mode g) c.
+            cp_sorted c /\ cp_good (tpg_mode g) c.
 Proof.
-  destruct (cp_run_good (g_mode g) (spec_ops g lines) cp_empty cp_empty_sorted
+  destruct (cp_run_good (tpg_mode g) (spec_ops g lines) cp_empty cp_empty_sorted
               (cp_empty_good _) (spec_ops_good g lines)) as (c & E & Hs & Hg).
   exists c. rewrite tp_decode_spec. unfold legacy_spec. rewrite E. auto.
 Qed.
 
 (* ---------- "|dt| < eps": the run test on accepted times ---------- *)
-
-Lemma pn_f64_finite s t : pn_f64 s = Some t -> is_finite t = true.
-Proof.
-  unfold pn_f64, pn_f64_lim. destruct (parse_f64_raw (trim s)) as [n|]; [|discriminate].
-  destruct (D.lt n _) eqn:E1; [discriminate|]. destruct (D.gt n _) eqn:E2; [discriminate|].
-  destruct (D.is_nan n) eqn:E3; [discriminate|]. intros H; inversion H; subst t.
-  destruct n as [s0|[|]| |s0 m e Hb]; try reflexivity; exfalso.
-  - revert E1. vm_compute. discriminate.
-  - revert E2. vm_compute. discriminate.
-  - discriminate E3.
-Qed.
 
 Lemma sub_finite_not_nan (a b : F64) :
   is_finite a = true -> is_finite b = true -> D.is_nan (D.sub a b) = false.
@@ -349,8 +356,8 @@ Proof. unfold parse_tp_line. rewrite parse_fields_nth. apply parse_opts_time_fin
 (* ---------- T12d ---------- *)
 
 Lemma field_defaults g :
-  f_sig None = Some 4 /\ f_bank g None = Some (g_bank g) /\ f_custom None = Some 0 /\
-  f_vol g None = Some (g_volume g) /\ f_tc None = true /\ f_flags None = Some (false, false) /\
+  f_sig None = Some 4 /\ f_bank g None = Some (tpg_bank g) /\ f_custom None = Some 0 /\
+  f_vol g None = Some (tpg_volume g) /\ f_tc None = true /\ f_flags None = Some (false, false) /\
   (forall s, f_sig (Some (48 :: s)) = Some 4) /\
   (forall s, f_tc (Some s) = match s with 49 :: _ => true | _ => false end).
 Proof.
@@ -362,6 +369,57 @@ Lemma two_field_line g t b :
   obnd (pn_f64 t) (fun time => obnd (f_beat b) (fun beat =>
   if D.is_nan beat then None
   else Some (mkLine time beat (speed_multiplier beat) 4
-               (if g_bank g =? bank_none then bank_normal else g_bank g) 0 (g_volume g)
+               (if tpg_bank g =? bank_none then bank_normal else tpg_bank g) 0 (tpg_volume g)
                true false false))).
 Proof. reflexivity. Qed.
+
+(* ---------- numeric order, outside the known finding D8 ---------- *)
+
+(* the narrow class of D8: both zeros occur among the times *)
+Definition mixed_zero (ts : list F64) : Prop :=
+  In (B754_zero true : F64) ts /\ In (B754_zero false : F64) ts.
+
+Definition num_sorted (ts : list F64) : Prop := StronglySorted (fun a b => D.lt a b = true) ts.
+
+Lemma sorted_numeric {P} (time : P -> F64) (l : list P) :
+  sorted time l -> Forall (fun p => is_finite (time p) = true) l ->
+  ~ mixed_zero (map time l) -> num_sorted (map time l).
+Proof.
+  unfold sorted, num_sorted. induction l as [|a l IH]; intros Hs Hf Hm; [constructor|].
+  cbn [map] in *. inversion Hs as [|? ? Hs1 Hs2]; subst. inversion Hf as [|? ? Hfa Hfl]; subst.
+  constructor.
+  - apply IH; [exact Hs1 | exact Hfl|]. intros (H1 & H2). apply Hm. split; right; assumption.
+  - rewrite Forall_forall in *. intros t Ht. apply in_map_iff in Ht. destruct Ht as (b & <- & Hb).
+    assert (Hk : K time a < K time b) by (apply Hs2; apply in_map; exact Hb).
+    destruct (TPKeyOrder.key_lt_num (time a) (time b)) as [H|(H1 & H2)]; auto.
+    + destruct (time a); try discriminate Hfa; reflexivity.
+    + specialize (Hfl b Hb). destruct (time b); try discriminate Hfl; reflexivity.
+    + exfalso. apply Hm. split; [left; exact H1 | right; rewrite <- H2; apply in_map; exact Hb].
+Qed.
+
+Lemma good_times mode c : cp_good mode c ->
+  Forall (fun p => is_finite (tp_time p) = true) (cp_timing c) /\
+  Forall (fun p => is_finite (dp_time p) = true) (cp_difficulty c) /\
+  Forall (fun p => is_finite (ep_time p) = true) (cp_effect c) /\
+  Forall (fun p => is_finite (sp_time p) = true) (cp_sample c).
+Proof.
+  intros (H1 & H2 & H3 & H4).
+  repeat split; (eapply Forall_impl; [|eassumption]); cbv beta; intros p Hp;
+    [destruct Hp as (_ & _ & H) | destruct Hp as (_ & H) | destruct Hp as (_ & _ & H) | destruct Hp as (_ & _ & H)];
+    exact H.
+Qed.
+
+(* every list of the decoder's result is numerically strictly increasing
+   unless it holds points at both -0.0 and +0.0 *)
+Lemma tp_decode_numeric g lines :
+  exists c, tp_decode g lines = Done (c, spec_results g lines) /\
+    (~ mixed_zero (map tp_time (cp_timing c)) -> num_sorted (map tp_time (cp_timing c))) /\
+    (~ mixed_zero (map dp_time (cp_difficulty c)) -> num_sorted (map dp_time (cp_difficulty c))) /\
+    (~ mixed_zero (map ep_time (cp_effect c)) -> num_sorted (map ep_time (cp_effect c))) /\
+    (~ mixed_zero (map sp_time (cp_sample c)) -> num_sorted (map sp_time (cp_sample c))).
+Proof.
+  destruct (tp_decode_good g lines) as (c & E & _ & (St & Sd & Se & Ss) & Hg).
+  destruct (good_times _ _ Hg) as (Ft & Fd & Fe & Fs).
+  exists c. split; [exact E|].
+  repeat split; intros Hm; apply sorted_numeric; assumption.
+Qed.
